@@ -29,10 +29,11 @@ type c11TxCase struct {
 	N             int    `json:"n"`       // statements the body would run
 	Outcome       string `json:"outcome"` // nil error panic-error panic-string panic-runtime
 	K             int    `json:"k"`       // statements run before the outcome (== N for nil)
-	Kinds         string `json:"kinds"`   // one letter per statement: e(xec) q(uery) p(repared exec) r(prepared query)
+	Kinds         string `json:"kinds"`   // one letter per statement: e(xec) q(uery) p(repared exec) r(prepared query); x y z w = exec / query / prepared exec / prepared query whose arguments do not match the placeholders (fails in sqlx before the driver)
 	BeginFault    bool   `json:"begin_fault,omitempty"`
 	StmtFault     int    `json:"stmt_fault"`         // -1 none, else 0-based ordinal of the failing statement
 	Reaction      string `json:"reaction,omitempty"` // propagate swallow panic notfound-continue: what the body does with a statement error
+	PrepFault     bool   `json:"prep_fault,omitempty"` // the fault of statement StmtFault (a prepared statement) hits Prepare, not the execution
 	IterFault     bool   `json:"iter_fault,omitempty"` // the fault of statement StmtFault (a single-row query) hits the fetch of its first row, not the call
 	CommitFault   bool   `json:"commit_fault,omitempty"`
 	RollbackFault bool   `json:"rollback_fault,omitempty"`
@@ -86,6 +87,28 @@ func c11RunStmt(ctx context.Context, s sqlx.Session, kind byte, i int) error {
 			return s.QueryRow(&v, "select c from t where id = ?", i)
 		}
 		return s.QueryRowCtx(ctx, &v, "select c from t")
+	case 'x':
+		_, err := s.Exec("update t set v = ? where id = ?", i)
+		return err
+	case 'y':
+		var v int64
+		return s.QueryRowCtx(ctx, &v, "select c from t where id = ? and k = ?", i)
+	case 'z':
+		st, err := s.Prepare("insert into t(v, w) values (?, ?)")
+		if err != nil {
+			return err
+		}
+		defer st.Close()
+		_, err = st.ExecCtx(ctx, i)
+		return err
+	case 'w':
+		st, err := s.PrepareCtx(ctx, "select c from t where a = ? and b = ?")
+		if err != nil {
+			return err
+		}
+		defer st.Close()
+		var v int64
+		return st.QueryRow(&v, i)
 	case 'p':
 		st, err := s.Prepare("insert into t(v) values (?)")
 		if err != nil {
@@ -107,6 +130,11 @@ func c11RunStmt(ctx context.Context, s sqlx.Session, kind byte, i int) error {
 
 // c11RunTx runs one transaction described by c on conn/rec and returns the observation.
 func c11RunTx(c c11TxCase, conn sqlx.Conn, rec *c11Rec) c11TxObs {
+	return c11RunTxWith(c, rec, func(body func(context.Context, sqlx.Session) error) error { return c11Call(c.API, conn, body) })
+}
+
+// c11RunTxWith is c11RunTx with the entry point supplied by the caller.
+func c11RunTxWith(c c11TxCase, rec *c11Rec, call func(func(context.Context, sqlx.Session) error) error) c11TxObs {
 	var o c11TxObs
 	start := len(rec.snapshot())
 	body := func(ctx context.Context, s sqlx.Session) (err error) {
@@ -151,7 +179,7 @@ func c11RunTx(c c11TxCase, conn sqlx.Conn, rec *c11Rec) c11TxObs {
 			return nil
 		}
 	}
-	o.pv, o.panicked = vk.Recover(func() { o.res = c11Call(c.API, conn, body) })
+	o.pv, o.panicked = vk.Recover(func() { o.res = call(body) })
 	o.events = rec.snapshot()[start:]
 	return o
 }
@@ -286,7 +314,15 @@ func c11ArmFaults(rec *c11Rec, c c11TxCase, base map[string]int) {
 	if c.BeginFault {
 		rec.fault("begin", base["begin"], errors.New("c11 fault begin"))
 	}
-	if c.StmtFault >= 0 && c.IterFault {
+	if c.StmtFault >= 0 && c.PrepFault {
+		n := 0
+		for _, k := range c.Kinds[:c.StmtFault] {
+			if k == 'p' || k == 'r' || k == 'z' || k == 'w' {
+				n++
+			}
+		}
+		rec.fault("prepare", base["prepare"]+n, fmt.Errorf("c11 fault prepare#%d", c.StmtFault))
+	} else if c.StmtFault >= 0 && c.IterFault {
 		rec.iterFault(base["stmt"]+c.StmtFault, 0)
 	} else if c.StmtFault >= 0 {
 		rec.fault("stmt", base["stmt"]+c.StmtFault, fmt.Errorf("c11 fault stmt#%d", c.StmtFault))
@@ -337,6 +373,16 @@ func c11TxTable() []c11TxCase {
 								for _, rf := range []bool{false, true} {
 									c := base
 									c.StmtFault, c.Reaction, c.CommitFault, c.RollbackFault = sf, re, cf, rf
+									out = append(out, c)
+								}
+							}
+						}
+						if sf >= 0 && (base.Kinds[sf] == 'p' || base.Kinds[sf] == 'r') {
+							// the statement's Prepare fails at the driver
+							for _, re := range []string{"propagate", "swallow"} {
+								for _, rf := range []bool{false, true} {
+									c := base
+									c.StmtFault, c.Reaction, c.RollbackFault, c.PrepFault = sf, re, rf, true
 									out = append(out, c)
 								}
 							}
@@ -493,7 +539,7 @@ func TestVerifC11TxSqlmock(t *testing.T) {
 // (one breaker, one pool): longer bodies, random fault placement, every transaction
 // judged on its own slice of driver events.
 func TestVerifC11TxHistories(t *testing.T) {
-	m := vk.New(t, "C11", "seeded histories: 2-6 consecutive transactions on one sqlx.Conn / one *sql.DB, bodies of 0-6 statements, random outcome, random Begin/statement/Commit/Rollback faults and body reactions; each transaction judged with the table oracle on its own driver events; a breaker rejection that starts nothing is outside the table; non-trivial = history reached the driver")
+	m := vk.New(t, "C11", "seeded histories: 2-6 consecutive transactions (every 40th history: a storm of 40 failing ones that opens the breaker) on one sqlx.Conn / one *sql.DB, bodies of 0-6 statements incl. prepared ones, statements rejected by sqlx before the driver, Prepare faults and first-row fetch faults, random outcome, random Begin/statement/Commit/Rollback faults and body reactions; each transaction judged with the table oracle on its own driver events; a breaker rejection that starts nothing is outside the table; non-trivial = history reached the driver")
 	defer m.Done()
 	n := vk.N(400, 30000)
 	r := m.Rand("histories")
@@ -510,7 +556,11 @@ func TestVerifC11TxHistories(t *testing.T) {
 			kinds := make([]byte, nst)
 			for j := range kinds {
 				kinds[j] = "eqpr"[r.Intn(4)]
+				if r.Intn(12) == 0 {
+					kinds[j] = "xyzw"[r.Intn(4)]
+				}
 			}
+			c.Reaction = reactions[r.Intn(len(reactions))] // also applies to statements that fail by themselves (x y z)
 			c.Kinds = string(kinds)
 			c.K = nst
 			if c.Outcome != "nil" {
@@ -522,6 +572,9 @@ func TestVerifC11TxHistories(t *testing.T) {
 			if c.K > 0 && r.Intn(3) == 0 {
 				c.StmtFault = r.Intn(c.K)
 				c.Reaction = reactions[r.Intn(len(reactions))]
+				if k := c.Kinds[c.StmtFault]; (k == 'p' || k == 'r') && r.Intn(2) == 0 {
+					c.PrepFault = true
+				}
 				if c.Kinds[c.StmtFault] == 'q' && r.Intn(2) == 0 {
 					c.IterFault = true
 					c.Reaction = []string{"propagate", "notfound-continue"}[r.Intn(2)]
@@ -530,6 +583,17 @@ func TestVerifC11TxHistories(t *testing.T) {
 			c.CommitFault = r.Intn(4) == 0
 			c.RollbackFault = r.Intn(4) == 0
 			hist[i] = c
+		}
+		if idx%40 == 0 {
+			// failure storm: enough consecutive failed transactions on one Conn to open its breaker
+			storm := make([]c11TxCase, 40)
+			for i := range storm {
+				storm[i] = c11TxCase{API: apis[i%4], N: 1, K: 1, Kinds: "e", Outcome: []string{"error", "nil", "panic-string"}[i%3], StmtFault: -1}
+				if i%3 == 1 {
+					storm[i].CommitFault = true
+				}
+			}
+			hist = storm
 		}
 		if !m.Only(idx) {
 			continue
